@@ -185,6 +185,14 @@ class Case:
                     e2e = 0
                 self.run.cov["zero_identifier_requests"] = self.run.cov.get("zero_identifier_requests", 0) + 1
             else:
+                if "pend" in mod:
+                    # an answer bearing the identifiers of a request of this very peer that is still pending at the
+                    # node (held by the application): a coincidence of identifiers in the two directions, nothing more
+                    mod = mod.replace("pend", "")
+                    if letter in ANS_LETTERS and c.unanswered:
+                        reuse = c.unanswered[-1][2:4]
+                        self.run.cov["answers_bearing_identifiers_of_a_pending_request"] = \
+                            self.run.cov.get("answers_bearing_identifiers_of_a_pending_request", 0) + 1
                 if "rep" in mod:
                     mod = mod.replace("rep", "")
                     done = [r for r in c.answered if not any(u[2:4] == r[2:4] for u in c.unanswered)]
@@ -420,6 +428,9 @@ class Run:
 
 DIRECTED = [
     ("in-ready", "defer", ["REQ", "REQ", "SUB", "SUB2", "SUB", "SUB2"]),
+    ("in-ready", "defer", ["REQ", "CEAnohost~pend", "DWR", "SUB"]),
+    ("out-ready", "defer", ["REQ", "ANSbare~pend", "DWAbare~pend", "SUB", "REQ", "CEAnohost~Tpend", "SUB"]),
+    ("in-ready", "defer", ["REQ", "REQ", "ANS~pend", "DPA~pend", "SUB", "SUB"]),
     ("out-ready", "defer", ["REQ", "SUB", "SUB2", "REQ", "DPR", "SUB"]),
     ("in-ready", "answer", ["APPREQ", "ANSlate", "APPREQ", "ANSlatebare"]),
     ("out-ready", "answer", ["APPREQ", "APPREQ", "ANSlatebare", "ANSlate", "ANSlate"]),
@@ -623,7 +634,7 @@ def run_shard(spec):
             script = [(rng.randrange(nconn), rng.choice(LETTERS)) for _ in range(d)]
             script = [(ci, l + rng.choice(["~h0", "~e0"])) if l in REQ_LETTERS and rng.random() < 0.12 else (ci, l)
                       for ci, l in script]
-            script = [(ci, l + rng.choice(["~T", "~Trep", "~Trep", "~rep", "~E", "~TE", "~P"]))
+            script = [(ci, l + rng.choice(["~T", "~Trep", "~Trep", "~rep", "~E", "~TE", "~P", "~pend", "~pend"]))
                       if "~" not in l and l in REQ_LETTERS + ANS_LETTERS and rng.random() < 0.15 else (ci, l)
                       for ci, l in script]
             run.one(rng.choice(STARTS), rng.choice(BEHAVIOURS), script, nconn)
